@@ -132,9 +132,11 @@ class Parameter(Immutable):
     def to_dict(self) -> dict[str, Any]:
         return {
             'name': self.name,
-            'init': self.init,
-            'lower': self.lower,
-            'upper': self.upper,
+            # NOTE: An int given to the constructor (e.g. lower=0) must not give another dict
+            #  than the equal float
+            'init': float(self.init),
+            'lower': float(self.lower),
+            'upper': float(self.upper),
             'fix': self.fix,
         }
 
